@@ -231,12 +231,12 @@ async fn run_case(case: &Value) -> Value {
         let mut noop = false;
         if k < started {
             if handlers[k].is_none() {
-                if gates::ON || natural {
+                if gates::ON && !natural {
                     legal = false;
                     blocked_at = json!(i);
                     break;
                 }
-                noop = true; // no gates: the handler finished on its first poll
+                noop = true; // no gates / natural mode: the handler has already finished
             } else if natural {
                 // just poll again
             } else if !gates::open(k as u64) {
